@@ -18,8 +18,11 @@ def _work(args):
     import importlib
     mod = importlib.import_module('harness.' + pid.lower())
     rng = c.rng_for(seed, pid if getattr(mod, 'OWN_STREAM', False) else 'hist', i)
-    cfg, mode = gen_config(rng, mode_filter)
-    evs = gen_history(rng, cfg, length)
+    if hasattr(mod, 'GEN'):
+        cfg, mode, evs = mod.GEN(rng)
+    else:
+        cfg, mode = gen_config(rng, mode_filter)
+        evs = gen_history(rng, cfg, length)
     model = c.Model() if use_model else None
     try:
         out = play(cfg, evs, model, oracles=mod.ORACLES, base_dir=base)
